@@ -35,6 +35,11 @@ func NewOverlay(inner KeyValueTree) OverlayTree {
 
 // Implements KeyValueTree.
 func (o *treeOverlay) Insert(_ context.Context, key, value []byte) error {
+	if value == nil {
+		// Same as in the tree: a nil value is the empty value, not a removal.
+		value = []byte{}
+	}
+
 	o.overlay.Set(string(key), value)
 	o.dirty[string(key)] = true
 	return nil
